@@ -959,7 +959,7 @@ namespace awkward {
   template <typename T>
   const ContentPtr
   ListOffsetArrayOf<T>::num(int64_t axis, int64_t depth) const {
-    int64_t posaxis = axis_wrap_if_negative(axis);
+    int64_t posaxis = axis_wrap_if_negative(axis, depth);
     if (posaxis == depth) {
       Index64 out(1);
       out.setitem_at_nowrap(0, length());
@@ -995,7 +995,7 @@ namespace awkward {
   const std::pair<Index64, ContentPtr>
   ListOffsetArrayOf<T>::offsets_and_flattened(int64_t axis,
                                               int64_t depth) const {
-    int64_t posaxis = axis_wrap_if_negative(axis);
+    int64_t posaxis = axis_wrap_if_negative(axis, depth);
     if (posaxis == depth) {
       throw std::invalid_argument(
         std::string("axis=0 not allowed for flatten") + FILENAME(__LINE__));
@@ -1270,7 +1270,7 @@ namespace awkward {
   ListOffsetArrayOf<T>::rpad(int64_t target,
                              int64_t axis,
                              int64_t depth) const {
-    int64_t posaxis = axis_wrap_if_negative(axis);
+    int64_t posaxis = axis_wrap_if_negative(axis, depth);
     if (posaxis == depth) {
       return rpad_axis0(target, false);
     }
@@ -1315,7 +1315,7 @@ namespace awkward {
   ListOffsetArrayOf<T>::rpad_and_clip(int64_t target,
                                       int64_t axis,
                                       int64_t depth) const {
-    int64_t posaxis = axis_wrap_if_negative(axis);
+    int64_t posaxis = axis_wrap_if_negative(axis, depth);
     if (posaxis == depth) {
       return rpad_axis0(target, true);
     }
@@ -1576,7 +1576,7 @@ namespace awkward {
   template <typename T>
   const ContentPtr
   ListOffsetArrayOf<T>::localindex(int64_t axis, int64_t depth) const {
-    int64_t posaxis = axis_wrap_if_negative(axis);
+    int64_t posaxis = axis_wrap_if_negative(axis, depth);
     if (posaxis == depth) {
       return localindex_axis0();
     }
@@ -1618,7 +1618,7 @@ namespace awkward {
         std::string("in combinations, 'n' must be at least 1") + FILENAME(__LINE__));
     }
 
-    int64_t posaxis = axis_wrap_if_negative(axis);
+    int64_t posaxis = axis_wrap_if_negative(axis, depth);
     if (posaxis == depth) {
       return combinations_axis0(n, replacement, recordlookup, parameters);
     }
